@@ -181,6 +181,10 @@ func HotSpotParamRuleJsonArrayParser(src []byte) (interface{}, error) {
 	}
 	rules := make([]*hotspot.Rule, len(hotspotRules))
 	for i, hotspotRule := range hotspotRules {
+		if hotspotRule == nil {
+			// a JSON null element: keep it as a nil rule (ignored by the rule manager) instead of dereferencing it
+			continue
+		}
 		rules[i] = &hotspot.Rule{
 			ID:                hotspotRule.ID,
 			Resource:          hotspotRule.Resource,
